@@ -336,7 +336,7 @@ func c18_1(c *core.Ctx, p *core.Prog) {
 		return
 	}
 	var preds []*ssa.Function
-	core.EachCall(a.exportFn, func(ci ssa.CallInstruction) {
+	core.EachCall(a.spanFn(), func(ci ssa.CallInstruction) {
 		if f := core.StaticCallee(ci); f != nil && core.FnPkgPath(f) == core.CBPPath && isCtxTupleSlicePred(f) {
 			preds = append(preds, f)
 		}
@@ -434,10 +434,50 @@ func (a *cbpAnchors) ctxOrigins(v ssa.Value) map[string][]ssa.Value {
 	return out
 }
 
+// spanFn is the function that holds the tracing decision of one export: the export goroutine itself, or
+// the package function it calls to start the export span (`ctx, span := b.startExportSpan(batch)`), which
+// is then bound to its single call site and treated as transparent by the slicer.
+func (a *cbpAnchors) spanFn() *ssa.Function {
+	startsSpan := func(f *ssa.Function) bool {
+		found := false
+		core.EachInstr(f, func(i ssa.Instruction) {
+			if cl, ok := i.(*ssa.Call); ok && cl.Call.IsInvoke() && cl.Call.Method.Name() == "Start" && core.TypePkgPath(cl.Call.Value.Type()) == "go.opentelemetry.io/otel/trace" {
+				found = true
+			}
+		})
+		return found
+	}
+	if startsSpan(a.exportFn) {
+		return a.exportFn
+	}
+	var res *ssa.Function
+	core.EachInstr(a.exportFn, func(i ssa.Instruction) {
+		cl, ok := i.(*ssa.Call)
+		if !ok || res != nil {
+			return
+		}
+		h := cl.Call.StaticCallee()
+		if h == nil || h.Blocks == nil || core.FnPkgPath(h) != core.CBPPath || !startsSpan(h) {
+			return
+		}
+		res = h
+		for k, pr := range h.Params {
+			if k < len(cl.Call.Args) {
+				core.BindParam(pr, cl.Call.Args[k])
+			}
+		}
+		core.MarkTransparent(h)
+	})
+	if res == nil {
+		return a.exportFn
+	}
+	return res
+}
+
 // singleCtxIf finds the branch on the single-context predicate in the export goroutine.
 func (a *cbpAnchors) singleCtxIf() *ssa.If {
 	var res *ssa.If
-	core.EachInstr(a.exportFn, func(i ssa.Instruction) {
+	core.EachInstr(a.spanFn(), func(i ssa.Instruction) {
 		iff, ok := i.(*ssa.If)
 		if !ok {
 			return
@@ -457,7 +497,7 @@ func (a *cbpAnchors) singleCtxIf() *ssa.If {
 	// semantic fallback: the branch that separates a Tracer.Start whose parent is a contributor's
 	// context from a Tracer.Start whose parent is the shard's own context
 	var callerStart, ownStart []*ssa.Call
-	core.EachInstr(a.exportFn, func(i ssa.Instruction) {
+	core.EachInstr(a.spanFn(), func(i ssa.Instruction) {
 		cl, ok := i.(*ssa.Call)
 		if !ok || !cl.Call.IsInvoke() || cl.Call.Method.Name() != "Start" || len(cl.Call.Args) < 1 || !isCtx(cl.Call.Args[0].Type()) {
 			return
@@ -471,7 +511,7 @@ func (a *cbpAnchors) singleCtxIf() *ssa.If {
 		}
 	})
 	if len(callerStart) == 1 && len(ownStart) == 1 {
-		core.EachInstr(a.exportFn, func(i ssa.Instruction) {
+		core.EachInstr(a.spanFn(), func(i ssa.Instruction) {
 			iff, ok := i.(*ssa.If)
 			if !ok || res != nil {
 				return
@@ -640,6 +680,17 @@ func c18_2(c *core.Ctx, p *core.Prog) {
 			}
 			return
 		}
+		// the context is a result of the span-starting helper: its definitions are the helper's returns
+		if ex, ok := v.(*ssa.Extract); ok {
+			if cl, ok := ex.Tuple.(*ssa.Call); ok && cl.Call.StaticCallee() == a.spanFn() && a.spanFn() != a.exportFn {
+				for _, r := range core.Returns(a.spanFn()) {
+					if ex.Index < len(r.Results) {
+						expand(r.Results[ex.Index], seen)
+					}
+				}
+				return
+			}
+		}
 		defs = append(defs, v)
 	}
 	expand(ctxArg, map[ssa.Value]bool{})
@@ -695,7 +746,7 @@ func c18_3(c *core.Ctx, p *core.Prog) {
 	if !a.ok(c) {
 		return
 	}
-	fn := a.exportFn
+	fn := a.spanFn()
 	iff := a.singleCtxIf()
 	if iff == nil {
 		c.Undecided("links", p.Pos(fn.Pos()), core.FuncName(fn), "no single-context branch")
